@@ -521,6 +521,36 @@ def keyword_position_cases():
     return out
 
 
+def cross_file_cases():
+    """Seed-independent: every diagnostic whose notes point into ANOTHER file (an imported module or the
+    prelude).  The named file and the position must belong together."""
+    pad = "# padding\n" * 3
+    imp = 'import "testdata/parameters.emb" as p\nimport "testdata/imported.emb" as q\n'
+    body = [
+        ("missing-argument", "  0 [+4]  p.Axis  a\n"),
+        ("extra-argument", "  0 [+4]  p.AxesEnvelope(1)  a\n"),
+        ("argument-of-wrong-type", "  0 [+4]  p.Axis(true)  a\n"),
+        ("argument-of-other-enum", "  0 [+4]  p.Axis(p.Product.VERSION_1)  a\n"),
+        ("integer-for-enum", "  0 [+4]  p.Axis(1)  a\n"),
+        ("two-arguments-one-wrong", "  0 [+8]  p.AxisPair(p.AxisType.X_AXIS, 2)  a\n"),
+        ("prelude-type-with-argument", "  0 [+4]  UInt(3)  a\n"),
+        ("prelude-type-with-two-arguments", "  0 [+4]  Int(3, 4)  a\n"),
+        ("imported-type-as-array-with-argument", "  0 [+8]  p.BiasedValue(true)[8]  a\n"),
+        ("duplicate-of-imported-name", "  0 [+1]  UInt  a\n  1 [+1]  UInt  a\n"),
+        ("member-of-imported-type-missing", "  0 [+4]  q.Inner  a\n  let b = a.no_such_member\n"),
+        ("imported-missing-type", "  0 [+4]  q.NoSuchType  a\n"),
+        ("imported-enum-missing-value", "  0 [+1]  UInt  a\n  let b = p.AxisType.NO_SUCH\n"),
+        ("imported-type-size-mismatch", "  0 [+3]  q.Inner  a\n"),
+        ("external-size-mismatch", "  0 [+9]  UInt  a\n"),
+        ("bits-only-type-in-struct", "  0 [+1]  Flag  a\n"),
+    ]
+    out = []
+    for lab, b in body:
+        for lead in ("", pad):
+            out.append(("cross-file:" + lab, imp + lead + "struct Foo:\n" + b))
+    return out
+
+
 def keyword_position(rng):
     """One random member of the enumeration, possibly wrapped once more."""
     kw = rng.choice(dollar_keywords())
